@@ -107,6 +107,18 @@ def handleEval : Handler := fun st op args =>
   | "threats", [ptok] =>
     some (st, withPos ptok fun p => let t := countThreats p.c p; s!"{t.wp} {t.wt} {t.bp} {t.bt}")
   | "c19hyp", [ptok] => some (st, withPos ptok fun p => if p.threatHypB then "1" else "0")
+  | "threatstack", [ptok, m1, _m2] =>
+    -- storage is invisible in the model (C09): the detector's answer for the position after m1 and a pass
+    some (st, withPos ptok fun p =>
+      match parseMove m1 with
+      | none => "bad-move"
+      | some m =>
+        match p.apply st.basis m with
+        | .error e => fmtErr e
+        | .ok a =>
+          match a.apply st.basis ⟨0, 0, Facts.mtPass, 0⟩ with
+          | .error e => fmtErr e
+          | .ok b => let t := countThreats b.c b; s!"{t.wp} {t.wt} {t.bp} {t.bt} {threatReal b (onePlyRoadWin st.basis)}")
   | "threatreal", [ptok] => some (st, withPos ptok fun p => threatReal p (onePlyRoadWin st.basis))
   | "sthreatreal", [ptok] => some (st, withPos ptok fun p => threatReal p specRoadWin)
   | "roadwin1", [ptok] =>
